@@ -24,20 +24,20 @@ ASSUMPTIONS = ['JSON strictness = Python json with NaN/Infinity literals, duplic
 REPORT = ['modules', 'evaluations', 'documents_read_by_independent_reader', 'library_roundtrips', 'reals_compared',
           'strings_with_markup_characters', 'skipped_xml_illegal_characters', 'reader_not_applicable', 'carved_out']
 FLOORS = {'quick': {'evaluations': 20000, 'documents_read_by_independent_reader': 15000, 'reals_compared': 1000},
-          'thorough': {'evaluations': 200000}}
+          'thorough': {'evaluations': 80000, 'documents_read_by_independent_reader': 60000, 'reals_compared': 4000}}
 TIMEOUT = {'quick': 1800, 'thorough': 14000}
 INDENTS = [None, 0, 1, 4]
 MARKUP = ['<', '>', '&', '"', "'", ']]>', '<!--', ' x', 'x ', '  ', '\t', '\n', '', '&amp;', '&#13;', '\\', '/', '{', '\x7f', 'é', '中']
 
 
 def shards(tier):
-    return 32 if tier == 'quick' else 128
+    return 32 if tier == 'quick' else 64
 
 
 def params(tier):
     if tier == 'quick':
         return {'modules': 6, 'values': 8}
-    return {'modules': 24, 'values': 14}
+    return {'modules': 18, 'values': 12}
 
 
 def profile(tier):
